@@ -12,6 +12,8 @@ package main
 import (
 	"go/ast"
 	"go/token"
+	"os"
+	"path/filepath"
 	"sort"
 	"strconv"
 	"strings"
@@ -76,6 +78,81 @@ func backoffNewCalls(body *ast.BlockStmt) [][]ast.Expr {
 	return out
 }
 
+// pkgFiles parses every non-test Go file of a package directory.
+func pkgFiles(dir string) []*ast.File {
+	ents, err := os.ReadDir(filepath.Join(repo, dir))
+	if err != nil {
+		return nil
+	}
+	var out []*ast.File
+	for _, e := range ents {
+		n := e.Name()
+		if e.IsDir() || !strings.HasSuffix(n, ".go") || strings.HasSuffix(n, "_test.go") {
+			continue
+		}
+		if _, f := parseFile(filepath.Join(dir, n)); f != nil {
+			out = append(out, f)
+		}
+	}
+	return out
+}
+
+// pkgBackoffNewCalls: the argument lists of every `backoff.New(...)` call of the package.
+func pkgBackoffNewCalls(dir string) [][]ast.Expr {
+	var out [][]ast.Expr
+	for _, f := range pkgFiles(dir) {
+		for _, d := range f.Decls {
+			if fd, ok := d.(*ast.FuncDecl); ok && fd.Body != nil {
+				out = append(out, backoffNewCalls(fd.Body)...)
+			}
+		}
+	}
+	return out
+}
+
+// zeroDefaults: every `if <x> == 0 { <y> = <const> }` of the package whose condition or target mentions
+// `word` (case-insensitive); returns the constants.
+func zeroDefaults(dir, word string) []string {
+	var vals []string
+	text := func(e ast.Expr) string {
+		switch x := e.(type) {
+		case *ast.Ident:
+			return x.Name
+		case *ast.SelectorExpr:
+			return x.Sel.Name
+		}
+		return ""
+	}
+	for _, f := range pkgFiles(dir) {
+		ast.Inspect(f, func(n ast.Node) bool {
+			is, ok := n.(*ast.IfStmt)
+			if !ok || is.Else != nil || len(is.Body.List) != 1 {
+				return true
+			}
+			be, ok := is.Cond.(*ast.BinaryExpr)
+			if !ok || be.Op != token.EQL {
+				return true
+			}
+			if lit, ok := be.Y.(*ast.BasicLit); !ok || lit.Value != "0" {
+				return true
+			}
+			as, ok := is.Body.List[0].(*ast.AssignStmt)
+			if !ok || as.Tok != token.ASSIGN || len(as.Lhs) != 1 || len(as.Rhs) != 1 {
+				return true
+			}
+			name := strings.ToLower(text(be.X) + " " + text(as.Lhs[0]))
+			if !strings.Contains(name, word) || !strings.Contains(name, "backoff") {
+				return true
+			}
+			if v, ok := constExpr(as.Rhs[0], nil); ok {
+				vals = append(vals, v)
+			}
+			return true
+		})
+	}
+	return vals
+}
+
 func leanOptNatList(xs []string, ok bool) string {
 	if !ok {
 		return "none"
@@ -115,8 +192,8 @@ func backoffFacts() string {
 	b.WriteString("/-! ### G7: backoff parameters and retryable dial status codes (C18) -/\n")
 
 	// JoinOnStartup
-	_, f := parseFile("server/gossip/gossip.go")
-	calls := backoffNewCalls(funcBody(f, "JoinOnStartup"))
+	// (the only call of the package, in whichever function it lives)
+	calls := pkgBackoffNewCalls("server/gossip")
 	var args []string
 	ok := len(calls) == 1 && len(calls[0]) == 3
 	if ok {
@@ -133,18 +210,12 @@ func backoffFacts() string {
 	b.WriteString("def joinBackoffArgs : Option (List Nat) := " + leanOptNatList(args, ok) + "\n")
 
 	// Upstream.connect
-	_, f = parseFile("client/upstream.go")
-	body := funcBody(f, "connect")
-	calls = backoffNewCalls(body)
+	// the only `backoff.New` call of package client; the defaults are the constants assigned when a
+	// reconnect-backoff value is zero, wherever that happens (connect itself or a helper)
+	calls = pkgBackoffNewCalls("client")
 	retries, ok := "", len(calls) == 1 && len(calls[0]) == 3
 	if ok {
 		retries, ok = constExpr(calls[0][0], nil)
-		// the other two arguments must be the local variables the defaults are assigned to
-		for i, want := range []string{"minReconnectBackoff", "maxReconnectBackoff"} {
-			if id, isID := calls[0][i+1].(*ast.Ident); !isID || id.Name != want {
-				ok = false
-			}
-		}
 	}
 	b.WriteString("/-- first argument (retries) of the only `backoff.New` call in `Upstream.connect` -/\n")
 	if ok {
@@ -152,13 +223,20 @@ func backoffFacts() string {
 	} else {
 		b.WriteString("def connectBackoffRetries : Option Nat := none\n")
 	}
-	dmin, ok1 := assignedConst(body, "minReconnectBackoff")
-	dmax, ok2 := assignedConst(body, "maxReconnectBackoff")
+	mins, maxs := zeroDefaults("client", "min"), zeroDefaults("client", "max")
+	dmin, ok1 := "", len(mins) == 1
+	dmax, ok2 := "", len(maxs) == 1
+	if ok1 {
+		dmin = mins[0]
+	}
+	if ok2 {
+		dmax = maxs[0]
+	}
 	b.WriteString("/-- defaults assigned in `Upstream.connect` when Min/MaxReconnectBackoff are zero: min ns, max ns -/\n")
 	b.WriteString("def connectDefaultBackoffs : Option (List Nat) := " + leanOptNatList([]string{dmin, dmax}, ok1 && ok2) + "\n")
 
 	// retryableStatusCodes
-	_, f = parseFile("pkg/websocket/conn.go")
+	_, f := parseFile("pkg/websocket/conn.go")
 	var codes []int
 	ok = false
 	if f != nil {
